@@ -1668,11 +1668,14 @@ func (r *stack) lock() {
 	if r.canMutex() {
 		if mutex, found := r.mutex(); found {
 			verifPoint("lock.want", r)
+			mutex.Lock()
+			verifPoint("lock.held", r)
+
+			// lock bookkeeping is shared state
+			// too: only touch it while locked.
 			sc, _ := r.config()
 			_now := now()
 			sc.ldr = &_now
-			mutex.Lock()
-			verifPoint("lock.held", r)
 		}
 	}
 }
@@ -1685,10 +1688,10 @@ the receiver, nothing happens.
 func (r *stack) unlock() {
 	if r.canMutex() {
 		if mutex, found := r.mutex(); found {
-			mutex.Unlock()
-			verifPoint("lock.released", r)
 			sc, _ := r.config()
 			sc.ldr = nil
+			mutex.Unlock()
+			verifPoint("lock.released", r)
 		}
 	}
 }
